@@ -582,8 +582,37 @@ def single_assignments(fn: ast.AST) -> dict[str, ast.expr]:
         elif isinstance(n, ast.AnnAssign) and n.value is not None and \
                 isinstance(n.target, ast.Name):
             val[n.target.id] = n.value
+    mut = mutated_names(fn)
     return {k: v for k, v in val.items() if count.get(k) == 1
-            and k not in params and not creates_object(v)}
+            and k not in params and not creates_object(v) and k not in mut}
+
+
+#: method names that change the object they are called on
+MUTATORS = frozenset((
+    "append", "extend", "insert", "remove", "pop", "clear", "sort",
+    "reverse", "add", "discard", "update", "setdefault", "popitem", "fill",
+    "write", "writelines", "resize", "put", "itemset", "shuffle"))
+
+
+def mutated_names(node: ast.AST | list) -> set[str]:
+    """Names whose object is changed in place inside `node`: through a
+    mutating method, a subscript / attribute store, `del x[..]`, `x += ..`."""
+    out: set[str] = set()
+    roots = node if isinstance(node, list) else [node]
+    for root in roots:
+        for n in ast.walk(root):
+            if isinstance(n, ast.Call) and isinstance(
+                    n.func, ast.Attribute) and n.func.attr in MUTATORS \
+                    and isinstance(n.func.value, ast.Name):
+                out.add(n.func.value.id)
+            elif isinstance(n, (ast.Subscript, ast.Attribute)) and \
+                    isinstance(n.ctx, (ast.Store, ast.Del)):
+                b = n.value
+                while isinstance(b, (ast.Subscript, ast.Attribute)):
+                    b = b.value
+                if isinstance(b, ast.Name):
+                    out.add(b.id)
+    return out
 
 
 def creates_object(v: ast.expr) -> bool:
